@@ -416,9 +416,15 @@ def _ns_private(ex, st, args, kwargs, node):
 CLASSES["C01_Compiler"].fields["glyphOrder"] = List(STR)
 _CG = "self.allGlyphs[self.glyphOrder[a]]"
 _CS = "{cs}[self.glyphOrder[a]]"
-_CS_FACTS = ("{cs}.pen.drawn == {g} and {cs}.pen.glyphSet == self.allGlyphs and {cs}.pen.roundTolerance == self.roundTolerance and {cs}.optimize == self.optimizeCFF"
-             " and {cs}.private.defaultWidthX == {d} and {cs}.private.nominalWidthX == {n}"
-             " and ({d} if {cs}.pen.width is None else {n} + {cs}.pen.width) == otr({g}.width)")
+_CS_FACT = {
+    "own-glyph": "{cs}.pen.drawn == {g}",
+    "glyph-set": "{cs}.pen.glyphSet == self.allGlyphs",
+    "tolerance": "{cs}.pen.roundTolerance == self.roundTolerance",
+    "optimize": "{cs}.optimize == self.optimizeCFF",
+    "private-widths": "{cs}.private.defaultWidthX == {d} and {cs}.private.nominalWidthX == {n}",
+    # the advance a reader reconstructs from (default, nominal, operand) is otRound(source width)
+    "reader-width": "({d} if {cs}.pen.width is None else {n} + {cs}.pen.width) == otr({g}.width)",
+}
 
 contract(
     "ufo2ft.outlineCompiler:OutlineOTFCompiler.compileGlyphs",
@@ -436,8 +442,8 @@ contract(
         "widths-cached": "self._defaultAndNominalWidths is not None",
         # each charstring: its own source glyph, the compiler's glyph set / tolerance / optimize flag, the cached width pair, and the
         # advance a reader reconstructs from (default, nominal, operand) is otRound(source width)
-        "own-glyph-and-width": "all(" + _CS_FACTS.format(cs=_CS.format(cs="result"), g=_CG, d="self._defaultAndNominalWidths[0]", n="self._defaultAndNominalWidths[1]")
-        + " for a in range(len(self.glyphOrder)))",
+        **{k: "all(" + v.format(cs=_CS.format(cs="result"), g=_CG, d="self._defaultAndNominalWidths[0]", n="self._defaultAndNominalWidths[1]") + " for a in range(len(self.glyphOrder)))"
+           for k, v in _CS_FACT.items()},
     },
     canaries={"same-glyph-for-all": "len(self.glyphOrder) > 1 and result[self.glyphOrder[0]].pen.drawn == result[self.glyphOrder[1]].pen.drawn and self.glyphOrder[0] != self.glyphOrder[1]"
               " and self.allGlyphs[self.glyphOrder[0]] != self.allGlyphs[self.glyphOrder[1]]"},
@@ -448,7 +454,7 @@ contract(
             invariants={
                 "done": "all(self.glyphOrder[a] in compiledGlyphs for a in range(i))",
                 "private": "private.defaultWidthX == defaultWidth and private.nominalWidthX == nominalWidth",
-                "facts": "all(" + _CS_FACTS.format(cs=_CS.format(cs="compiledGlyphs"), g=_CG, d="defaultWidth", n="nominalWidth") + " for a in range(i))",
+                **{k: "all(" + v.format(cs=_CS.format(cs="compiledGlyphs"), g=_CG, d="defaultWidth", n="nominalWidth") + " for a in range(i))" for k, v in _CS_FACT.items()},
             },
         )
     },
